@@ -132,7 +132,7 @@ Print Assumptions C10_table_bracketed.
 (* THE PROPERTY THEOREM OF THE CHECK (re-proved against the regenerated table on every run):
    exactly these handlers touch shared state without holding requestMutex.  Removing a Lock() from any other
    handler, or adding an unlocked handler to the map, makes this vm_compute fail. *)
-Definition known_unlocked : list string :=
+Definition known_unlocked : list name := map nm
   [ "initialize"; "initialized"; "textDocument/hover"; "textDocument/references"; "textDocument/documentSymbol";
     "textDocument/rename"; "textDocument/documentColor"; "completionItem/resolve";
     "workspace/didChangeConfiguration"; "workspace/didChangeWorkspaceFolders"; "workspace/symbol";
@@ -143,17 +143,18 @@ Proof. vm_compute. reflexivity. Qed.
 Print Assumptions C10_only_known_unlocked.
 
 (* AFTER the planned fix (work/fixes/C10-take-mutex.diff) the list is empty: replace the body of known_unlocked by []
-   and C10_only_known_unlocked is then exactly the plan's
-       Theorem C10_handlers_locked : forallb locked handlers = true.
-   (proof: vm_compute. reflexivity.) - the model and all other theorems stay as they are. *)
+   and C10_only_known_unlocked is then exactly the plan's property theorem
+       C10_handlers_locked : forallb locked handlers = true      (proof: vm_compute. reflexivity.)
+   - the model and all other theorems stay as they are; C10_handlers_locked_refuted / C10_unlocked_refuted are then
+   deleted (their statements become false / vacuous). *)
 
 (* the goroutines started by handlers do not take the mutex at all (telemetry) *)
-Theorem C10_background_unlocked : unlocked_names background = ["$go/handleRecv"; "$go/UDPReportOnline"].
+Theorem C10_background_unlocked : unlocked_names background = map nm ["$go/handleRecv"; "$go/UDPReportOnline"].
 Proof. vm_compute. reflexivity. Qed.
 Print Assumptions C10_background_unlocked.
 
 (* exactly one handler splits its work over two critical sections (not atomic as a whole) *)
-Theorem C10_only_known_split : split_names handlers = ["workspace/didChangeWorkspaceFolders"].
+Theorem C10_only_known_split : split_names handlers = map nm ["workspace/didChangeWorkspaceFolders"].
 Proof. vm_compute. reflexivity. Qed.
 Print Assumptions C10_only_known_split.
 
@@ -182,7 +183,7 @@ Print Assumptions C10_real_no_deadlock.
 
 (* the handlers of the simple shape (for message lists drawn from them C10_serialisable applies to the real table) *)
 Theorem C10_simple_handlers :
-  map hname (filter (fun h => simple_body (hbody h)) handlers) =
+  map hname (filter (fun h => simple_body (hbody h)) handlers) = map nm
   [ "textDocument/didChange"; "textDocument/didSave"; "textDocument/didOpen"; "textDocument/didClose";
     "textDocument/definition"; "textDocument/documentHighlight"; "textDocument/signatureHelp";
     "textDocument/codeLens"; "textDocument/documentLink"; "textDocument/completion";
